@@ -62,7 +62,7 @@ impl ExWorld {
     }
     pub fn exec(&mut self, t: &[&str]) -> (String, String) {
         let env = self.gw.env.clone();
-        if t[0].starts_with("gw.") || t[0] == "time" {
+        if t[0].starts_with("gw.") || t[0] == "time" || t[0] == "tick" {
             return self.gw.exec(t);
         }
         if let Some(r) = sac_exec(&env, t) {
